@@ -71,7 +71,14 @@ def gen_case(rng, maxops):
             p = list(rng.choice(pool))
             if rng.chance(1, 6):
                 p = p + [rng.below(NNAMES)]      # probably missing
-            lines.append([{"stat": 50, "size": 51, "list": 52, "visit": 53}[k]] + p)
+            code = {"stat": 50, "size": 51, "list": 52, "visit": 53}[k]
+            if code <= 52 and rng.chance(1, 4):
+                code += 10                          # the same query on the path spelled with a trailing separator
+            if code == 53 and rng.chance(1, 3):
+                q = list(rng.choice(dirs + files))  # one visitor object used twice, the caller moves to q in between
+                lines.append([55, len(p)] + p + q)
+                continue
+            lines.append([code] + p)
     lines.append([51])
     lines.append([52])
     return lines
@@ -114,9 +121,10 @@ class C18(Spec):
 
     def nontrivial(self, lines):
         ops = [l.split()[0] for l in lines[1:] if l.split()]
-        return "20" in ops and any(o in ("50", "51", "52") for o in ops)
+        return "20" in ops and any(o in ("50", "51", "52", "60", "61", "62") for o in ops)
 
     def classify(self, lines):
         names = {"20": "join", "21": "getPathName", "22": "getParentDirectory", "23": "isAbsolute", "40": "mkdir", "41": "create file",
-                 "50": "exists/isFile/isDirectory", "51": "size", "52": "listChildren", "53": "DirectoryVisitor", "54": "nested DirectoryVisitors"}
+                 "50": "exists/isFile/isDirectory", "51": "size", "52": "listChildren", "53": "DirectoryVisitor", "54": "nested DirectoryVisitors", "55": "DirectoryVisitor used twice",
+                 "60": "exists/isFile/isDirectory (trailing separator)", "61": "size (trailing separator)", "62": "listChildren (trailing separator)"}
         return sorted({"op:" + names.get(l.split()[0], "?") for l in lines[1:] if l.split()})
